@@ -54,12 +54,13 @@ CHECKS = {
         "miss), evalQO_agrees (the oracle evaluator fed a cache's own answers is the sequential evaluator). Correspondence: real threads under a deterministic scheduler (EVERY cache operation incl. every progress "
         "write is a yield point) on MemoryCache, FileCache, StoreCache(MemoryStore): seeded schedules with up to 3 (thorough 5) pre-emptions and a structured family (three evaluations sharing a prefix, one pre-empted "
         "twice, the others running to completion in the gaps); the model replays the global sequence of operations the implementation performed (its store_metadata calls verbatim as environment steps); per-thread "
-        "outcome, call log, own operations and final cache are compared; oracle: every thread returns its solo NoCache result, every value left in the cache equals a fresh evaluation. Known finding: a progress write "
-        "on an entry another evaluation has finished replaces its metadata (metadata symptoms only are excused, a wrong value never). Partial: pre-emption inside one cache operation (between the file operations of a "
-        "file-backed cache) is below the model's atomicity (seeded changes C12-1, C12-3 are missed for that reason; C16 covers every cut point of a single writer)."),
+        "outcome, call log, own operations and final cache are compared; oracle: every thread returns its solo NoCache result, every value left in the cache equals a fresh evaluation. In addition, for FileCache and StoreCache(FileStore), "
+        "schedules at FILE-operation granularity (every open / write / close / rename / unlink of a thread below the cache directory is a yield point; two writers of a shared prefix inside each other's write protocol "
+        "followed by a reader, and a reader inside one writer's protocol), oracle only. Partial: the file-operation interleavings are explored on the implementation but not covered by a theorem (Conc.lean's step is one cache "
+        "operation; C16's theorems cover every cut point of a single writer)."),
   note=("Trusted: Lean kernel; the evaluator model (as C01/C04) and its mechanical oracle-world translation EvalO.lean (harness/gen_evalo.py --check on every run); Conc.lean's atomicity: one cache operation is one step, "
-        "Python threads are sequentially consistent at that granularity; the harness scheduler (semaphores, one runnable thread at a time); hypotheses Closed/CanonOK as in C04 (C02 round trip); known findings "
-        "rtq-ambiguous-text (shared with C04) and progress-write-on-finished-entry."),
+        "Python threads are sequentially consistent at that granularity; the harness scheduler (semaphores, one runnable thread at a time); hypotheses Closed/CanonOK as in C04 (C02 round trip); known finding "
+        "rtq-ambiguous-text (shared with C04); the defect found by this check (a metadata-only 'ready' record under the result key) is fixed in /repo (cb22d87)."),
  ),
  "C03": dict(
   text=("Lean theorems for every finite string of Unicode scalar values and every escape table satisfying the decidable side condition "
@@ -90,14 +91,12 @@ CHECKS = {
  ),
  "C07": dict(
   text=("Spec-level contract theorems about the reference file system (read-back, presence of ancestors, exactly-once listing, removal, frame, "
-        "tree invariant over every well-formed history) and the refinement theorem mem_refines (MemoryStore model = reference model on every "
-        "well-formed history, incl. recursive removal); proxy refinement. The FileStore model is tied to the reference model by correspondence "
-        "only (file_refines is statement-only). All 12 stacks (memory/file x plain, proxy, indexer, overlay(empty), mount, global default) are "
+        "tree invariant over every well-formed history) and the refinement theorems mem_refines and file_refines (MemoryStore model and FileStore model = reference model on every "
+        "well-formed history over plain keys, incl. recursive removal; keys() up to permutation), mem_never_fails / file_never_fails; proxy refinement. All 12 stacks (memory/file x plain, proxy, indexer, overlay(empty), mount, global default) are "
         "compared with the reference model after every operation of generated well-formed histories; the oracle evaluates the contract clauses "
         "and pairwise agreement on the implementation."),
   note=("Trusted: Lean kernel; hand-written mirrors LiquerModel/StoreMem.lean, StoreFile.lean, StoreProxy.lean (tied by correspondence); md5 modelled as "
-        "an injective function; JSON metadata text not modelled; POSIX directory operations at the granularity of the tree model; partial: file_refines "
-        "rests on correspondence."),
+        "an injective function; JSON metadata text not modelled; POSIX directory operations at the granularity of the tree model."),
  ),
  "C17": dict(
   text=("(a) read-only view: every mutating operation returns the read-only error and leaves the state unchanged, reads are forwarded — for every "
@@ -139,7 +138,9 @@ CHECKS = {
   note=("Trusted: Lean kernel; extract.py's ast reading of the view functions; Flask test client as the transport."),
  ),
  "C01": dict(
-  text=("Theorems in Props/C01.lean over the evaluator model and the reference interpretation (see evidence for the obligations discharged); the model is tied "
+  text=("Theorems in Props/C01.lean over the evaluator model and the reference interpretation: eval_is_ref / eval_obs_is_ref (any Sound cache, any fuel, any as-typed spelling), and - new - the bridge to C02: "
+        "ref_position_irrelevant, canon_wf (every wfTop query means what its canonical text means: the CanonOK hypothesis of all evaluator theorems is discharged by C02's print-parse round trip), eval_is_ref_wf / "
+        "eval_obs_is_ref_wf (the refinement for any closed class of wfTop queries with no text hypothesis left); the model is tied "
         "to the code by comparing full outcomes and call logs of generated queries (typed arguments, defaults, variadic, links to depth 3, namespaces, state "
         "variables, sub-evaluations, input values, extra parameters) with the evaluator model and with the Lean reference interpretation; the oracle is an "
         "independent Python fold over the parsed query."),
